@@ -368,6 +368,12 @@ Definition ordered_merge_left (ver:version) (cs:Z) (L R:list Z) (srcs:list (list
       Ok (mk_oml ret sinks (match mk with MFld => Some [] | _ => None end))   (* the map argument is ignored *)
   end.
 
+(* Session.ordered_merge_right(left_on, right_on, left_field_sources, right_field_sinks, right_to_left_map,
+   left_unique, right_unique) = ordered_merge_left(right_on, left_on, ..., right_unique, left_unique) *)
+Definition ordered_merge_right (ver:version) (cs:Z) (left_on right_on:list Z) (srcs:list (list Z)) (fm:form)
+           (sinks0:list (list Z)) (mk:mapk) (left_unique right_unique:bool) : res oml_out :=
+  ordered_merge_left ver cs right_on left_on srcs fm sinks0 mk right_unique left_unique.
+
 (* ------------------------------------------------------------------ Session.ordered_merge_inner *)
 Inductive omi_ret := RNone | ROne (l:list (list Z)) | RPair (l r:list (list Z)).
 Definition truthy (o:option (list (list Z))) : bool :=
